@@ -117,7 +117,8 @@ theorem step_slot {w w' : World} {ctr ctr' : Nat} {y p : SlabID} {c c' pc pc' : 
   refine ⟨by rw [hT]; exact H.legal, ?_, ?_, ?_, ?_, ?_, hS.uniqueRef H.unique, ?_,
     hS.mutIdxOkX H.mutIdx (fun q x => by rw [hidx]), hS.closureOk H.closure (fun x hi hx => by rw [← hh]; exact hx),
     hS.cRank H.rank, hS.refsBelow H.below hctr,
-    fun q x i hi => by rw [hidx] at hi; rw [hS.isSome]; exact H.idxLive q x i hi⟩
+    hS.idxLive H.idxLive (fun q x i hi => by rw [hidx] at hi; exact hi),
+    hS.hinfoLive H.hinfoLive (fun x hi hx => by rw [← hh]; exact hx)⟩
   · -- ids
     intro z cz hz
     by_cases hzy : z = y
